@@ -290,3 +290,16 @@ Theorem operation_sequences_total_volume :
   forall v, oeq (mesh_volume T (fst g) (snd g)) v -> oeq (mesh_volume T (fst g') (snd g')) v.
 Proof. exact vsteps_mesh_volume_. Qed.
 Print Assumptions operation_sequences_total_volume.
+(** the total plan area of the geometry (sum of the column areas) is unchanged by every finite
+    sequence of refine_layers / column-operation steps, in any order *)
+Theorem operation_sequences_total_area :
+  forall (g g' : geometry), vsteps g g' -> (mesh_area (snd g') == mesh_area (snd g))%Q.
+Proof. exact vsteps_mesh_area_. Qed.
+Print Assumptions operation_sequences_total_area.
+(** refine_layers (any layer selection, factor >= 1): the new layers have positive thicknesses and
+    the same total depth -- the bottom of the lowest layer does not move *)
+Theorem refine_layers_depth :
+  forall factor sel ths, (0 < factor)%nat -> all_pos ths ->
+  all_pos (refine_ths factor sel ths) /\ (qsum (refine_ths factor sel ths) == qsum ths)%Q.
+Proof. exact refine_layers_depth_. Qed.
+Print Assumptions refine_layers_depth.
